@@ -1241,7 +1241,9 @@ func conv(t_dst, t_src types.Type, x value) value {
 		switch ut_dst := ut_dst.(type) {
 		case *types.Slice:
 			if ut_dst.Elem().Underlying().(*types.Basic).Kind() == types.Byte {
-				res := make([]value, len(ss))
+				// spare capacity as the Go runtime's size classes leave it: code that appends
+				// in place to a converted string shares its buffer between rows natively
+				res := make([]value, len(ss), byteSliceCap(len(ss)))
 				copy(res, ss)
 				return res
 			}
@@ -1294,7 +1296,7 @@ func conv(t_dst, t_src types.Type, x value) value {
 			switch ut_dst := ut_dst.(type) {
 			case *types.Slice:
 				checkLazy(s)
-				res := make([]value, 0, len(s))
+				res := make([]value, 0, byteSliceCap(len(s)))
 				switch ut_dst.Elem().Underlying().(*types.Basic).Kind() {
 				case types.Rune:
 					for _, r := range []rune(s) {
@@ -1570,4 +1572,18 @@ func fandbits[F floaty](x, y F) F {
 		*(*uint64)(unsafe.Pointer(&x)) &= *(*uint64)(unsafe.Pointer(&y))
 	}
 	return x
+}
+
+// byteSliceCap: capacity the Go runtime gives a []byte converted from a string of n bytes
+// (malloc size classes; the exact value is unspecified, what matters is that it exceeds n).
+func byteSliceCap(n int) int {
+	if n == 0 {
+		return 0
+	}
+	for _, c := range []int{8, 16, 24, 32, 48, 64, 80, 96, 112, 128} {
+		if n <= c {
+			return c
+		}
+	}
+	return (n + 127) / 128 * 128
 }
